@@ -77,7 +77,7 @@ func genC15(r *Rand, tier string, ord int) *Trial {
 			t.Params["trimflag"] = "1"
 		}
 	case "cli-vs-pkg":
-		form := []string{"toma", "variants", "samvariants", "snps", "snps-agg", "closest", "closestn", "updownlist", "topranking"}[r.Intn(9)]
+		form := []string{"toma", "topa-stdout", "topa-dir", "variants", "samvariants", "snps", "snps-agg", "closest", "closestn", "updownlist", "topranking"}[r.Intn(11)]
 		t.Case = *genCmdCase(r, form, caseSize{})
 		t.Params["form"] = form
 	case "topa-window", "topa-wrap":
@@ -413,7 +413,7 @@ func checkC15(t *Trial, ctx *Ctx) *Failure {
 		if f := mustOK(res); f != nil {
 			return f
 		}
-		if string(res.Stdout) != string(b.Stdout) {
+		if res.outputKey() != b.outputKey() {
 			return fail("command-line-differs-from-library-call", fmt.Sprintf("gofasta %v", cc.Opts.Args), res)
 		}
 		ctx.Nontrivial()
